@@ -145,7 +145,7 @@ Section Layers.
     match ks with
     | [] => Panic P_index
     | k :: _ => match tdata k with
-                | DTriple ((r :: _) :: _ as d) => Ok (length ks * (length d * hd_len d * length r))
+                | DTriple (((r :: _) :: _) as d) => Ok (length ks * (length d * hd_len d * length r))
                 | DTriple _ => Panic P_index
                 | _ => Ok 0
                 end
